@@ -108,8 +108,16 @@ def text_files(files, only=None):
 
 def small_replay(case):
     """what a reader needs to reproduce: the mutated entry file in full, the other files by reference"""
-    r = {"base": case["base"], "entry": case["entry"], "edits": case.get("edits", []),
-         "files": text_files(case["files"], only=[case["entry"]] + [n for n in case["files"] if case.get("inline_all")])}
+    only = [case["entry"]] + [n for n in case["files"] if case.get("inline_all") or n == case.get("mutated")]
+    r = {"base": case["base"], "entry": case["entry"], "edits": case.get("edits", []), "files": text_files(case["files"], only=only)}
+    hexed = {}
+    for n in only:
+        try:
+            case["files"][n].decode("utf-8")
+        except UnicodeDecodeError:
+            hexed[n] = case["files"][n].hex()
+    if hexed:
+        r["files_hex"] = hexed          # not valid UTF-8: the exact bytes
     if not case.get("inline_all"):
         r["other_files_from"] = case["base"]
     return r
@@ -141,6 +149,9 @@ def build_library_cases(chk, bases):
             text, kinds = g.mutate(r, src, nedits(r), donors)
             fm = dict(files)
             fm[entry] = text.encode("utf-8")
+            if r.chance(0.06):
+                fm[entry] = g.raw_bytes(r, fm[entry], r.range(1, 2))
+                kinds = kinds + ["raw_bytes"]
             cases.append({"base": label, "files": fm, "entry": entry, "edits": kinds, "opts": options(r, text)})
     gr = rng.fork("generated")
     for i in range(ngen):
@@ -153,6 +164,9 @@ def build_library_cases(chk, bases):
             text, kinds = g.mutate(gr, files[name].decode("utf-8"), nedits(gr), donors)
             fm = dict(files)
             fm[name] = text.encode("utf-8")
+            if gr.chance(0.06):
+                fm[name] = g.raw_bytes(gr, fm[name], gr.range(1, 2))
+                kinds = kinds + ["raw_bytes"]
             cases.append({"base": label, "files": fm, "entry": entry, "edits": kinds, "opts": options(gr, text), "inline_all": True})
     return cases
 
@@ -544,8 +558,10 @@ def replay(chk, rep):
                 files.update(cf)
     for n, t in r.get("files", {}).items():
         files[n] = t.encode("utf-8")
+    for n, h in r.get("files_hex", {}).items():
+        files[n] = bytes.fromhex(h)
     for n, t in r.get("files", {}).items():
-        print("== %s\n%s" % (n, t))
+        print("== %s%s\n%s" % (n, " (not valid UTF-8, exact bytes in files_hex)" if n in r.get("files_hex", {}) else "", t))
     if kind == "library":
         bins = vlib.harness_build(("debug", "release"))
         o = r["options"]
